@@ -45,7 +45,7 @@ Names(S) == JoinNames(SelectSeq(Order, LAMBDA a : a \in S))
 RECURSIVE HasSet(_)
 HasSet(v) == IF v.k = "set" THEN TRUE
              ELSE IF v.k \in {"list", "tuple"} THEN \E n \in 1..Len(v.v) : HasSet(v.v[n])
-             ELSE IF v.k \in {"dict", "ns"} THEN \E n \in 1..Len(v.v) : HasSet(v.v[n][2])
+             ELSE IF v.k \in {"dict", "ns", "odict"} THEN \E n \in 1..Len(v.v) : HasSet(v.v[n][2])
              ELSE FALSE
 
 \* the predicted doc against the observed one.  The harness tokenises yaml text with PyYAML's scanner, so a
@@ -70,7 +70,7 @@ CheckAccept(k) ==
 RECURSIVE ValueHazards(_, _)
 ValueHazards(fmt, v) ==
   IF v.k \in SeqKinds THEN UNION {ValueHazards(fmt, v.v[n]) : n \in 1..Len(v.v)}
-  ELSE IF v.k = "dict" THEN UNION {ValueHazards(fmt, v.v[n][1]) \cup ValueHazards(fmt, v.v[n][2]) : n \in 1..Len(v.v)}
+  ELSE IF v.k \in {"dict", "odict"} THEN UNION {ValueHazards(fmt, v.v[n][1]) \cup ValueHazards(fmt, v.v[n][2]) : n \in 1..Len(v.v)}
   ELSE IF v.k = "ns" THEN UNION {ValueHazards(fmt, v.v[n][2]) : n \in 1..Len(v.v)}
   ELSE IF v.k = "str" THEN {IF fmt = "yaml" THEN Deviation(v.v) ELSE JsonStrDeviation(v.v)} \ {"none"}
   ELSE IF v.k = "reg" THEN LET w == RegSer(RegName(v), v) IN
